@@ -3,11 +3,23 @@ From FV Require Import Base.Ser Base.Res C07.Model.
 Import ListNotations.
 Open Scope string_scope.
 Definition closure_reg (ls : list subst) (s : list glyph) : option (list glyph) := closure (S (S (List.length s + List.length (List.concat (List.concat (map (map snd) ls)))))) ls s.
+Global Instance De_crule : De crule :=
+  fun l => match de l with Some (((a, b), (c, d)), r) => Some (mkCR a b c d, r) | None => None end.
+Global Instance De_sub : De sub :=
+  fun l => match l with
+           | 0%Z :: r => match de r with Some ((b, m), r') => Some (SMap b m, r') | None => None end
+           | 1%Z :: r => match de r with Some (x, r') => Some (SLig x, r') | None => None end
+           | 2%Z :: r => match de r with Some (x, r') => Some (SCtx x, r') | None => None end
+           | _ => None
+           end.
+Definition closure_gsub_reg (fuel : nat) (lks : list lookup) (order : list nat) (s : list glyph) : option (list glyph) :=
+  closure_gsub fuel (S (List.length lks)) lks order s.
 Definition reg : registry := [
   ("subset_subst", run2 subset_subst);
   ("closure", run2 closure_reg);
   ("apply_seq", run2 apply_seq);
   ("classdef_subset", run3 classdef_subset);
-  ("varstore_subset", run4 varstore_subset)
+  ("varstore_subset", run4 varstore_subset);
+  ("closure_gsub", run4 closure_gsub_reg)
 ].
 Definition fv_entry := dispatch reg.
